@@ -61,6 +61,7 @@ def main() -> int:
     logging.disable(logging.CRITICAL)
     pid = a.property.upper()
     tier = a.tier if a.tier in ("quick", "thorough") else "quick"
+    os.environ["MC_TIER"] = tier
     seed = int(os.environ.get("VERIF_SEED", "0") or 0)
     modname = f"mc.props.{pid.lower()}"
     mod = importlib.import_module(modname)
